@@ -10,7 +10,11 @@ def _race(work, res):
     steps.TraceCorr(work, res, "C07", harness="bqueue", area="bqueue", tier="quick", name="bqueue-race", race=True).run(proofs_ok=True)
 
 
-CHECK = generic("C07", [dict(harness="bqueue", area="bqueue")], skel=SKEL, thorough_extra=_race)
+# evtrace: every single synchronisation action of real concurrent executions (event-logging twin of the scratch copy,
+# harness/evinst) replayed step by step on the transition-system models the theorems are about
+EVTRACE = dict(harness="evtrace", area="evtrace", name="evtrace-bq", evinst=True, gen_args=["-targets", "abq,lbq"])
+
+CHECK = generic("C07", [dict(harness="bqueue", area="bqueue"), EVTRACE], skel=SKEL, thorough_extra=_race)
 
 MANIFEST = dict(
     text=("Theorems in Lean 4 (Ekit/Props/C07.lean) about transition-system models of ConcurrentArrayBlockingQueue (two semaphores, "
@@ -29,7 +33,12 @@ MANIFEST = dict(
           "exactly-once monitor (up to 8 producers x 8 consumers, capacity 1-3, several hundred thousand operations per run: every accepted "
           "value delivered once or still queued, no invented/zero value, per-producer FIFO at each consumer), a fill/drain "
           "capacity check after every scenario, and (model mode) a label-by-label replay of sequential scenarios on the model with "
-          "white-box cursors, raw ring and free permits compared."),
+          "white-box cursors, raw ring and free permits compared; and by synchronisation-event traces: an instrumented twin of the "
+          "scratch copy (harness/evinst) logs every Lock/Unlock/RLock/RUnlock, semaphore Acquire/Release, ctx.Err observation, select "
+          "arm and channel close of concurrent scenarios in an order that is a legal order of the real execution, with white-box "
+          "snapshots taken inside the critical sections, and the models' step functions must accept the log action by action "
+          "(each logged action is the model's next synchronisation action of that thread and is ENABLED in the model's state; "
+          "snapshots and call results equal the model's) - driver area evtrace."),
     note=COMMON_NOTE + " Assumed (definitions in the model files): semaphore.Weighted as a permit counter whose Acquire may succeed or "
          "return ctx.Err() once ctx ended (no FIFO hand-off), sync.RWMutex (no writer preference), channels that are only ever closed, "
          "select takes any enabled arm, context as a monotone flag. Critical-section statements are grouped into two steps per section; "
